@@ -27,6 +27,10 @@ def verdict (a : Args) (model : Out) (monitor : Out → Option String := fun _ =
       | some impl =>
         -- the model returns a value here (and the model is what the property theorems are about): an implementation
         -- that panics on this input does not return that value - a concrete failing input, not a mere disagreement
+        if a.get "neok" == some "0" then "MONFAIL abs_diff_ne / relative_ne is not the negation of abs_diff_eq / relative_eq on these values"
+        else if a.get "aliasok" == some "0" then "MONFAIL comparing a value with itself (same reference) differs from comparing it with an identical clone"
+        else if a.get "iterok" == some "0" then "MONFAIL the iterator returned by evaluate_v yields different values when consumed by fold / for_each / last / count / nth than by next()"
+        else
         if (impl matches .panic) && !(model matches .panic) then
           "MONFAIL the implementation panics on this input; the model, for which the property is proved, returns " ++ model.render
         else
@@ -429,7 +433,19 @@ def goArbitrary {T : Type} [Nums T F64] [Arb.ArbitraryT T] (d : Hand.Arb.PieceDe
       | .panic => .panic
     if !(gen.same model) then
       "DISAGREE generated-vs-hand gen=" ++ gen.render ++ " hand=" ++ model.render
-    else verdict a gen (Mon.arbitrary (a.get "agree"))
+    else
+      let v := verdict a gen (Mon.arbitrary (a.get "agree"))
+      if v != "ok" then v else
+      -- the trait's other entry point, `arbitrary_take_rest`, must return well-formed values too
+      match a.get "takerest" with
+      | none => v
+      | some s =>
+        match Out.parseLike (.segs []) s with
+        | none => "bad cannot parse takerest"
+        | some tr =>
+          match Mon.arbitrary none tr with
+          | some why => "MONFAIL arbitrary_take_rest: " ++ why
+          | none => v
   | none => "bad args"
 
 
@@ -454,10 +470,10 @@ def serdeVerdict (a : Args) (tree : Option String) (borsh : Option (List Nat)) :
     let implTree := (a.get "tree").getD ""
     let implBorsh := (a.get "borsh").getD ""
     let rt := (a.get "rt").getD ""
-    if rt.contains '0' then "MONFAIL a real round trip (serde_json / serde_cbor / borsh: " ++ rt ++ ") did not return identical bits"
+    if rt.contains '0' then "MONFAIL a real round trip (serde_json / serde_cbor / borsh / non-self-describing binary: " ++ rt ++ ") did not return identical bits"
     else if implTree.startsWith "ERR" then "MONFAIL the derived Serialize made a call outside the modelled data-model subset: " ++ implTree
     else if t != implTree then "DISAGREE model=" ++ t
-    else if Borsh.bytesToHex b != implBorsh then "DISAGREE model=" ++ Borsh.bytesToHex b
+    else if implBorsh != "SKIP" && Borsh.bytesToHex b != implBorsh then "DISAGREE model=" ++ Borsh.bytesToHex b
     else "ok"
   | _, _ => "bad args"
 
